@@ -48,7 +48,19 @@ def make_gir(rng, names):
             if g and len(g) < 3:
                 g = None       # GLib refuses type names shorter than three characters
             if g:
-                out.append('<record name="%s" c:type="T%s" glib:type-name="%s" glib:get-type="t_get_type_%d"/>' % (nm, nm, g, i))
+                # every kind of registered type: structures, unions, classes (abstract, final, deprecated ones too), interfaces,
+                # registered enumerations and flags, boxed types
+                reg = 'glib:type-name="%s" glib:get-type="t_get_type_%d"' % (g, i)
+                kind = rng.choice(['record', 'record', 'union', 'class', 'class', 'class', 'interface', 'enumeration', 'bitfield', 'boxed'])
+                if kind in ('record', 'union', 'interface'):
+                    out.append('<%s name="%s" c:type="T%s" %s/>' % (kind, nm, nm, reg))
+                elif kind == 'class':
+                    flags = rng.choice(['', ' abstract="1"', ' abstract="1"', ' final="1"', ' deprecated="1"', ' abstract="1" deprecated="1"'])
+                    out.append('<class name="%s" c:type="T%s" %s glib:fundamental="1"%s/>' % (nm, nm, reg, flags))
+                elif kind in ('enumeration', 'bitfield'):
+                    out.append('<%s name="%s" c:type="T%s" %s><member name="a" value="1" c:identifier="T_R%d"/></%s>' % (kind, nm, nm, reg, i, kind))
+                else:
+                    out.append('<glib:boxed glib:name="%s" c:symbol-prefix="b%d" %s/>' % (nm, i, reg))
             else:
                 out.append('<record name="%s" c:type="T%s"/>' % (nm, nm))
             entries.append((nm, g, None))
